@@ -488,6 +488,31 @@ func (e *Exec) enterLoopHeader(st *State, fr *Frame, lp *Loop) bool {
 		return false
 	}
 	e.loopMod(fr.fn, lp)
+	// heaps the loop may write that the function's modifies clause does not
+	// list: the frame must be carried through the loop as an invariant
+	curMod := lp.mod
+	if spec != nil && len(spec.Modifies) > 0 {
+		curMod = map[string]Sort{}
+		ctx := &SpecCtx{e: e, pkg: fr.fn.Pkg.Pkg}
+		for _, m := range spec.Modifies {
+			if m != "nothing" {
+				e.addNamedHeap(m, ctx, curMod)
+			}
+		}
+	}
+	var autoFrame []string
+	topEntry := st.frames[0].entry
+	if e.topC.HasModifies && topEntry != nil {
+		declared := e.modOfContract(e.topC, nil)
+		if _, all := declared["*"]; !all {
+			for name, srt := range curMod {
+				if _, ok := declared[name]; !ok && name != "*" && srt.IsArr() {
+					autoFrame = append(autoFrame, name)
+				}
+			}
+			sort.Strings(autoFrame)
+		}
+	}
 	evalInvs := func() []*Term {
 		var out []*Term
 		if isRange && idxCell != nil {
@@ -500,6 +525,13 @@ func (e *Exec) enterLoopHeader(st *State, fr *Frame, lp *Loop) bool {
 				out = append(out, ctx.evalBool(inv.Expr))
 			}
 		}
+		for _, name := range autoFrame {
+			srt := curMod[name]
+			cur := st.heap(name, srt)
+			old := topEntry.heap(name, srt)
+			x := BoundVar("x", SInt)
+			out = append(out, Forall([]*Term{x}, Implies(Allocd(topEntry.alloc, x), Eq(Select(cur, x), Select(old, x))), []*Term{Select(cur, x)}))
+		}
 		return out
 	}
 	names := func(k int) string {
@@ -509,11 +541,39 @@ func (e *Exec) enterLoopHeader(st *State, fr *Frame, lp *Loop) bool {
 			}
 			k--
 		}
-		return spec.Invs[k].Text
+		if spec != nil && k < len(spec.Invs) {
+			return spec.Invs[k].Text
+		}
+		if spec != nil {
+			k -= len(spec.Invs)
+		}
+		return "objects allocated at function entry unchanged in " + autoFrame[k]
 	}
 	if fromInside && fr.inCut[hdr] {
 		for k, t := range evalInvs() {
 			e.check(st, fr, "INV.keep", lp.header.Instrs[0], fmt.Sprintf("loop %d: %s", lp.ord, names(k)), t)
+		}
+		if hs := fr.heads[hdr]; hs != nil {
+			// heaps outside the loop's modifies clause: objects that existed at the
+			// loop head must be unchanged by the iteration
+			var nm []string
+			for name := range st.heaps {
+				nm = append(nm, name)
+			}
+			sort.Strings(nm)
+			for _, name := range nm {
+				cur := st.heaps[name]
+				if !cur.S.IsArr() {
+					continue
+				}
+				old := hs.heap(name, cur.S)
+				if _, declared := hs.mods[name]; declared || old == cur {
+					continue
+				}
+				x := BoundVar("x", SInt)
+				e.check(st, fr, "LOOPFRAME", lp.header.Instrs[0], fmt.Sprintf("loop %d modifies only %s: %s", lp.ord, strings.Join(spec.Modifies, ", "), name),
+					Forall([]*Term{x}, Implies(Allocd(hs.alloc, x), Eq(Select(cur, x), Select(old, x)))))
+			}
 		}
 		e.paths++
 		return true
@@ -522,14 +582,7 @@ func (e *Exec) enterLoopHeader(st *State, fr *Frame, lp *Loop) bool {
 		e.check(st, fr, "INV.entry", lp.header.Instrs[0], fmt.Sprintf("loop %d: %s", lp.ord, names(k)), t)
 	}
 	// havoc
-	mod := lp.mod
-	if spec != nil && len(spec.Modifies) > 0 {
-		mod = map[string]Sort{}
-		ctx := &SpecCtx{e: e, pkg: fr.fn.Pkg.Pkg}
-		for _, m := range spec.Modifies {
-			e.addNamedHeap(m, ctx, mod)
-		}
-	}
+	mod := curMod
 	e.havocMod(st, mod)
 	for a := range lp.locals {
 		if c, ok := fr.locals[a]; ok {
@@ -545,6 +598,13 @@ func (e *Exec) enterLoopHeader(st *State, fr *Frame, lp *Loop) bool {
 		e.assume(t)
 	}
 	fr.inCut[hdr] = true
+	if spec != nil && len(spec.Modifies) > 0 {
+		if fr.heads == nil {
+			fr.heads = map[int]*Snapshot{}
+		}
+		fr.heads[hdr] = st.snapshot()
+		fr.heads[hdr].mods = mod
+	}
 	// nested loops start afresh
 	for _, other := range e.loopInfo(fr.fn).list {
 		if other != lp && lp.blocks[other.header.Index] {
